@@ -37,8 +37,12 @@ def process_inputs(pid: str, inputs: List[Tuple[Any, Dict[str, Any]]]) -> Dict[s
     """Build the cases (calls the implementation), run the driver, judge."""
     mod = load_prop(pid)
     cases: List[Tuple[Any, Case]] = []
-    for idx, inp in inputs:
-        cases.append((idx, mod.build(inp)))
+    traced: set = set()
+    for k_, (idx, inp) in enumerate(inputs):
+        if k_ < TRACE_PER_CHUNK:
+            cases.append((idx, _traced_build(mod, inp, traced)))
+        else:
+            cases.append((idx, mod.build(inp)))
     lines: List[str] = []
     spans = []
     for _, c in cases:
@@ -46,7 +50,7 @@ def process_inputs(pid: str, inputs: List[Tuple[Any, Dict[str, Any]]]) -> Dict[s
         lines += c.lines
     outs = common.run_driver(lines)
     res = {"n": 0, "evals": 0, "issues": [], "tags": Counter(), "skipped": 0, "nontrivial": set(),
-           "samples": [], "lines": len(lines)}
+           "samples": [], "lines": len(lines), "traced": traced}
     for (idx, c), (a, b) in zip(cases, spans):
         o = outs[a:b]
         issues = list(c.pre_issues)
@@ -72,6 +76,75 @@ def process_inputs(pid: str, inputs: List[Tuple[Any, Dict[str, Any]]]) -> Dict[s
     return res
 
 
+TRACE_PER_CHUNK = 2
+_PKG = str(common.REPO / "score_analysis")
+
+
+def _traced_build(mod, inp, traced: set):
+    """build one case under a line tracer restricted to /repo/score_analysis (anchor coverage)"""
+    def tracer(frame, event, arg):
+        fn = frame.f_code.co_filename
+        if not fn.startswith(_PKG):
+            return None
+        if event == "line":
+            traced.add((fn[len(_PKG) + 1:], frame.f_lineno))
+        return tracer
+
+    old = sys.gettrace()
+    sys.settrace(tracer)
+    try:
+        return mod.build(inp)
+    finally:
+        sys.settrace(old)
+
+
+def anchor_coverage(pid: str, traced: set) -> Dict[str, Any]:
+    """fraction of the executable lines of each anchored range (properties.jsonl) that were executed"""
+    import re as _re
+    anchors = []
+    for ln in (common.VERIF / "properties.jsonl").read_text().splitlines():
+        pr = json.loads(ln)
+        if pr["id"] == pid:
+            anchors = [m_.get("where", "") for m_ in pr["anchors"].get("mechanism", [])]
+    out = {}
+    exec_lines: Dict[str, set] = {}
+
+    def lines_of(rel):
+        if rel not in exec_lines:
+            src = (common.REPO / rel).read_text()
+            acc = set()
+
+            def walk(co):
+                for _, _, l_ in co.co_lines():
+                    if l_:
+                        acc.add(l_)
+                for c_ in co.co_consts:
+                    if hasattr(c_, "co_lines"):
+                        walk(c_)
+            walk(compile(src, rel, "exec"))
+            exec_lines[rel] = acc
+        return exec_lines[rel]
+
+    for where in anchors:
+        m_ = _re.match(r"(\S+?):([\d,\-]+)$", where)
+        if not m_:
+            continue
+        rel, spec = m_.group(1), m_.group(2)
+        want = set()
+        for part in spec.split(","):
+            a_, _, b_ = part.partition("-")
+            want |= set(range(int(a_), int(b_ or a_) + 1))
+        try:
+            ex = lines_of(rel) & want
+        except Exception:
+            continue
+        sub = rel[len("score_analysis/"):] if rel.startswith("score_analysis/") else rel
+        hit = {l_ for (f_, l_) in traced if f_ == sub} & ex
+        out[where] = {"executable_lines": len(ex), "executed": len(hit),
+                      "not_executed": sorted(ex - hit)[:25]}
+    return out
+
+
 def _worker(args):
     pid, seed, tier, idxs = args
     try:
@@ -94,6 +167,7 @@ def merge(acc, r):
     acc["issues"] += r["issues"]
     acc["tags"].update(r["tags"])
     acc["nontrivial"] |= r["nontrivial"]
+    acc.setdefault("traced", set()).update(r.get("traced", set()))
     if len(acc["samples"]) < 3:
         acc["samples"] += r["samples"][: 3 - len(acc["samples"])]
 
@@ -219,6 +293,7 @@ def main():
     acc["issues"] += merge_from["issues"]
     acc["tags"].update(merge_from["tags"])
     acc["nontrivial"] |= merge_from["nontrivial"]
+    acc.setdefault("traced", set()).update(merge_from.get("traced", set()))
     acc["samples"] += merge_from["samples"]
     crashes = merge_from.get("crashes", [])
     if crashes:
@@ -301,6 +376,8 @@ def main():
             "traces_validated_against_impl": acc["n"],
             "skipped_near_discontinuity": acc["skipped"],
             "input_distribution": dict(acc["tags"].most_common()),
+            "anchor_coverage": anchor_coverage(pid, acc.get("traced", set())),
+            "anchor_coverage_note": f"line tracer on {TRACE_PER_CHUNK} cases per chunk of {CHUNK}; anchored ranges from properties.jsonl (line numbers of the pinned commit; fix commits shift some ranges by a few lines)",
             "corpus_cases": len(corp),
             "known_findings_printed": [k["signature"] for k, _ in known_printed.values()],
             "samples": acc["samples"][:3],
